@@ -713,6 +713,14 @@ func parseCall(expr string, n *promParser.Call) (src []Source) {
 				es.Operation = n.Func.Name
 				es.Call = n
 				es.Position = e.PositionRange()
+				// A function returns its own value, not the value of its argument,
+				// unless all it does is sorting or relabeling.
+				switch n.Func.Name {
+				case "sort", "sort_desc", "label_replace", "label_join":
+				default:
+					es.KnownReturn = false
+					es.ReturnedNumber = 0
+				}
 				src = append(src, parsePromQLFunc(es, expr, n))
 			}
 		case promParser.ValueTypeNone, promParser.ValueTypeScalar, promParser.ValueTypeString:
